@@ -240,7 +240,7 @@ def run_program(job):
                             if not c.containsPoint(tuple(p)) and c.distanceTo(tuple(p)) > 1e-6:
                                 bad.append(dict(kind="containment", o=objs[i], vertex=[float(x) for x in p]))
                                 break
-                except (NotImplementedError, AttributeError, TypeError):
+                except Exception:   # containsPoint/distanceTo undefined for this region type: no independent answer
                     pass
         # visibility, with the occluders the property names: all occluding objects but source/target
         sidx = {id(o): i for i, o in enumerate(so)}
